@@ -39,6 +39,18 @@ def _no_lead_apostrophe(s):
     return s if not s.startswith("'") else "q" + s
 
 
+def unicode_identifier_like():
+    """ASCII letter followed by a mix of ASCII identifier characters and non-ASCII letters, digits, marks
+    and connectors - names on which Unicode-aware predicates (isalnum, isidentifier, \\w, \\d) and
+    ASCII-only ones disagree."""
+    exotic = st.characters(min_codepoint=0x80, whitelist_categories=("Lu", "Ll", "Lo", "Lm", "Nd", "Nl", "No", "Mn", "Pc"))
+    pool = ["level\u0663", "x\u0967", "a\uff11", "caf\u00e9", "m\u00b2", "na\u00efve", "a\u203fb", "\u00e9t\u00e9",
+            "A\u0300", "x\u2082", "\u03a9mega", "i\u0307", "\u00df", "\u0131"]
+    built = st.builds(lambda a, parts: a + "".join(parts), st.sampled_from(IDENT_FIRST),
+                      st.lists(st.one_of(st.sampled_from(IDENT_REST), exotic), min_size=1, max_size=5))
+    return st.one_of(built, st.sampled_from(pool))
+
+
 def uvl_names():
     """Anything a quoted UVL identifier can carry: no '"', no '.', no CR/LF/control, not starting
     with an apostrophe (library-wide string-literal marker)."""
@@ -50,7 +62,7 @@ def uvl_names():
             st.sampled_from("日本語\U0001f600\U00010348")),
         min_size=1, max_size=8).map(_no_lead_apostrophe)
     return st.one_of(ident_names(), st.sampled_from(UVL_KEYWORDS), st.sampled_from(OPERATOR_WORDS),
-                     st.sampled_from(ODD_UVL), free)
+                     st.sampled_from(ODD_UVL), free, unicode_identifier_like())
 
 
 def unicode_names(extra_pool=()):
@@ -60,7 +72,7 @@ def unicode_names(extra_pool=()):
             "a b", " x"[1:], "1", "_", "-"] + list(extra_pool)
     free = st.text(alphabet=st.characters(blacklist_categories=("Cs", "Cc")), min_size=1,
                    max_size=8).map(_no_lead_apostrophe)
-    return st.one_of(ident_names(), st.sampled_from(pool).map(_no_lead_apostrophe), free)
+    return st.one_of(ident_names(), st.sampled_from(pool).map(_no_lead_apostrophe), free, unicode_identifier_like())
 
 
 def unicode_names_nodot(extra_pool=()):
@@ -73,7 +85,7 @@ def xml_names():
     free = st.text(alphabet=st.characters(blacklist_categories=("Cs", "Cc", "Cn"),
                                           blacklist_characters="\ufffe\uffff\u2028\u2029\x85"),
                    min_size=1, max_size=8).map(_no_lead_apostrophe)
-    return st.one_of(ident_names(), st.sampled_from(pool), free).map(lambda s: s.replace(".", "·"))
+    return st.one_of(ident_names(), st.sampled_from(pool), free, unicode_identifier_like()).map(lambda s: s.replace(".", "·"))
 
 
 AFM_KEYWORDS = {"AND", "OR", "NOT", "IFF", "IMPLIES", "REQUIRES", "EXCLUDES", "Integer"}
@@ -134,11 +146,53 @@ SINGLE_KINDS = {"mandatory": _k_mand, "optional": _k_opt, "card1": _k_card, "sta
 GROUP_KINDS = {"alternative": _k_alt, "or": _k_or, "mutex": _k_mutex, "card": _k_card, "star": _k_star}
 
 
+# ---- near-duplicate names: variants of another name of the same model (case, blanks, underscore)
+def _v_swapcase(n):
+    return n.swapcase()
+
+
+def _v_upper(n):
+    return n.upper()
+
+
+def _v_lower(n):
+    return n.lower()
+
+
+def _v_keep_first_swap_rest(n):
+    return n[:1] + n[1:].swapcase()
+
+
+def _v_inner_space(n):
+    return n[:len(n) // 2] + " " + n[len(n) // 2:] if len(n) >= 2 else n + " "
+
+
+def _v_no_space(n):
+    return n.replace(" ", "")
+
+
+def _v_trailing_space(n):
+    return n + " "
+
+
+def _v_underscore(n):
+    return n + "_"
+
+
+def _v_double_space(n):
+    return n.replace(" ", "  ") if " " in n else n + "  x"
+
+
+VARIANTS_IDENT = (_v_swapcase, _v_upper, _v_lower, _v_underscore)
+VARIANTS_TEXT = VARIANTS_IDENT + (_v_inner_space, _v_no_space, _v_trailing_space, _v_double_space)
+VARIANTS_AFM = (_v_keep_first_swap_rest,)
+
+
 class Profile:
     def __init__(self, names, single=("mandatory", "optional"), group=("alternative", "or"),
                  layout="free", ftypes=("BOOLEAN",), fcards=False, abstract=True, attrs=None,
                  ctc_ops=logic.LOGICAL, ctc_depth=3, ctc_max=4, ctc_names=None, ctc_leaf=None,
-                 group_plus_mandatory=False, unique_key=None, ctc_expr=None):
+                 group_plus_mandatory=False, unique_key=None, ctc_expr=None, variants=VARIANTS_IDENT, sanitize=None):
         self.names = names
         self.single = single
         self.group = group
@@ -155,6 +209,8 @@ class Profile:
         self.group_plus_mandatory = group_plus_mandatory
         self.unique_key = unique_key
         self.ctc_expr = ctc_expr      # callable(draw, names, model_feats) -> expr, overrides default
+        self.variants = variants      # functions name -> near-duplicate name inside the profile's name domain
+        self.sanitize = sanitize      # maps a variant back into the name domain (e.g. away from keywords)
 
 
 def exprs(names, ops=logic.LOGICAL, max_depth=3, leaf=None):
@@ -181,7 +237,8 @@ def expr_of_depth(draw, names, ops, depth):
     """Expression whose depth is at most `depth`, built top-down so deep trees are common."""
     if depth <= 0 or draw(st.integers(0, 9)) < 2:
         return ["T", draw(st.sampled_from(list(names)))]
-    op = draw(st.sampled_from(list(ops)))
+    pool = list(ops) + (["NOT", "NOT"] if "NOT" in ops else [])
+    op = draw(st.sampled_from(pool))
     if op == "NOT":
         return ["NOT", draw(expr_of_depth(names, ops, depth - 1))]
     return [op, draw(expr_of_depth(names, ops, depth - 1)), draw(expr_of_depth(names, ops, depth - 1))]
@@ -209,6 +266,16 @@ def _blocks(draw, k, allow_groups=True):
 def model_specs(draw, profile: Profile, min_feats=1, max_feats=12, with_ctcs=True):
     n = draw(st.integers(min_feats, max_feats))
     names = draw(distinct(profile.names, n, profile.unique_key))
+    if n >= 2 and profile.variants and draw(st.integers(0, 2)) == 0:
+        # near-duplicate names: replace up to two names by a variant of another one
+        for _ in range(draw(st.integers(1, 2))):
+            i = draw(st.integers(0, n - 1))
+            j = draw(st.integers(0, n - 1))
+            cand = draw(st.sampled_from(profile.variants))(names[i])
+            if profile.sanitize is not None:
+                cand = profile.sanitize(cand)
+            if i != j and cand and cand not in names:
+                names[j] = cand
     parents = [None] + [draw(st.integers(0, i - 1)) for i in range(1, n)]
     kids = {i: [] for i in range(n)}
     for i in range(1, n):
@@ -281,6 +348,9 @@ def model_specs(draw, profile: Profile, min_feats=1, max_feats=12, with_ctcs=Tru
 BOOLEAN_ANY = Profile(ident_names(), single=("mandatory", "optional"),
                       group=("alternative", "or", "mutex", "card"), layout="free", ctc_depth=3, ctc_max=3)
 
+BOOLEAN_STAR = Profile(ident_names(), single=("mandatory", "optional", "star1"),
+                       group=("alternative", "or", "mutex", "card", "star"), layout="free", ctc_depth=3, ctc_max=3)
+
 ANY = Profile(ident_names(), single=("mandatory", "optional", "card1"),
               group=("alternative", "or", "mutex", "card"), layout="free",
               ftypes=("BOOLEAN", "BOOLEAN", "INTEGER", "REAL", "STRING"), fcards=True)
@@ -325,7 +395,7 @@ def _ctc_names_unicode(draw, j):
 
 JSON = Profile(unicode_names(), single=("mandatory", "optional"),
                group=("alternative", "or", "mutex", "card"), layout="free", attrs=_json_attrs,
-               ctc_depth=4, ctc_max=4, ctc_names=_ctc_names_unicode)
+               ctc_depth=4, ctc_max=4, ctc_names=_ctc_names_unicode, variants=VARIANTS_TEXT)
 
 
 def _ctc_names_distinct(draw, j):
@@ -334,18 +404,35 @@ def _ctc_names_distinct(draw, j):
 
 GLENCOE = Profile(unicode_names(), single=("mandatory", "optional"),
                   group=("alternative", "or", "mutex", "card"), layout="one_group", group_plus_mandatory=True,
-                  abstract=False, ctc_depth=3, ctc_max=4, ctc_names=_ctc_names_distinct)
+                  abstract=False, ctc_depth=3, ctc_max=4, ctc_names=_ctc_names_distinct, variants=VARIANTS_TEXT)
+
+
+def nary_chain(draw, names, ops=("AND", "OR"), max_operands=33):
+    """Left-deep chain of one associative operator with 3..max_operands operands (literals or negated
+    literals) - rendered as one n-ary rule/term by the reference emitters."""
+    op = draw(st.sampled_from(list(ops)))
+    k = draw(st.one_of(st.integers(3, 9), st.integers(3, max_operands)))
+    lits = []
+    for _ in range(k):
+        t = ["T", draw(st.sampled_from(names))]
+        lits.append(["NOT", t] if draw(st.integers(0, 3)) == 0 else t)
+    e = lits[0]
+    for x in lits[1:]:
+        e = [op, e, x]
+    return e
 
 
 def _fide_ctc(draw, names, feats):
     if draw(st.integers(0, 7)) == 0:
         return ["T", draw(st.sampled_from(names))]
+    if draw(st.integers(0, 5)) == 0:
+        return nary_chain(draw, names)
     ops = ("NOT", "AND", "OR", "IMPLIES", "EQUIVALENCE", "REQUIRES", "EXCLUDES")
     return draw(expr_of_depth(names, ops, draw(st.integers(1, 4))))
 
 
 FEATUREIDE = Profile(xml_names(), single=("mandatory", "optional"), group=("alternative", "or"),
-                     layout="one_group", abstract=True, ctc_max=6, ctc_expr=_fide_ctc)
+                     layout="one_group", abstract=True, ctc_max=6, ctc_expr=_fide_ctc, variants=VARIANTS_TEXT)
 
 
 # ------------------------------------------------------------------ AFM
@@ -381,7 +468,8 @@ def _afm_attrs(draw, fname):
 
 AFM_OPS = ("NOT", "AND", "OR", "IMPLIES", "EQUIVALENCE", "REQUIRES", "EXCLUDES")
 AFM = Profile(afm_names(), single=("mandatory", "optional"), group=("card", "card", "alternative", "or", "mutex"),
-              layout="free", abstract=False, attrs=_afm_attrs, ctc_ops=AFM_OPS, ctc_depth=5, ctc_max=4)
+              layout="free", abstract=False, attrs=_afm_attrs, ctc_ops=AFM_OPS, ctc_depth=5, ctc_max=4, variants=VARIANTS_AFM,
+              sanitize=lambda s: s + "x" if s in AFM_KEYWORDS else s)
 
 
 # ------------------------------------------------------------------ UVL
@@ -456,7 +544,7 @@ def _uvl_ctc(draw, names, feats):
 UVL = Profile(uvl_names(), single=("mandatory", "optional", "card1", "star1"),
               group=("alternative", "or", "mutex", "card", "star"), layout="free",
               ftypes=("BOOLEAN", "BOOLEAN", "BOOLEAN", "INTEGER", "REAL", "STRING"), fcards=True, abstract=True,
-              attrs=_uvl_attrs, ctc_max=4, ctc_expr=_uvl_ctc)
+              attrs=_uvl_attrs, ctc_max=4, ctc_expr=_uvl_ctc, variants=VARIANTS_TEXT)
 
 
 # ------------------------------------------------------------------ FaMa XML (any cardinalities, requires/excludes only)
@@ -466,26 +554,35 @@ def _fama_ctc(draw, names, feats):
 
 
 FAMA = Profile(xml_names(), single=("mandatory", "optional", "card1"), group=("alternative", "or", "mutex", "card"),
-               layout="free", abstract=False, ctc_max=4, ctc_expr=_fama_ctc, ctc_names=lambda draw, j: f"CTC-{j}")
+               layout="free", abstract=False, ctc_max=4, ctc_expr=_fama_ctc, ctc_names=lambda draw, j: f"CTC-{j}", variants=VARIANTS_TEXT)
 
 
 def _glencoe_ctc(draw, names, feats):
+    if draw(st.integers(0, 5)) == 0:
+        return nary_chain(draw, names)
     return draw(expr_of_depth(names, logic.LOGICAL, draw(st.integers(0, 3))))
 
 
 GLENCOE_3P = Profile(unicode_names(), single=("mandatory", "optional"), group=("alternative", "or", "mutex", "card"),
                      layout="one_group", group_plus_mandatory=True, abstract=False, ctc_max=4,
-                     ctc_names=_ctc_names_distinct)
+                     ctc_expr=_glencoe_ctc, ctc_names=_ctc_names_distinct, variants=VARIANTS_TEXT)
 
 
 # ------------------------------------------------------------------ Clafer
+CLAFER_RESERVED = {"not", "xor", "or", "mux", "opt", "abstract", "all", "no", "some", "one", "lone", "if", "then", "else",
+                   "in", "this", "parent", "ref", "enum", "min", "max", "sum", "product", "assert"}
+
+
+def clafer_sanitize(s):
+    return s + "_" if s in CLAFER_RESERVED else s
+
+
 def clafer_names():
     pool = ["a b", "x-y", "my feat", "AND", "OR", "NOT", "XOR", "x OR y", "1st", "é", "a+b", "q?", "p:q", "not", "xor", "or"]
     free = st.text(alphabet=st.sampled_from(string.ascii_letters + string.digits + " _-+*/,;!#%&|@^~<>="), min_size=1,
                    max_size=6).map(lambda s: s.strip() or "z")
-    reserved = {"not", "xor", "or", "mux", "opt", "abstract", "all", "no", "some", "one", "lone", "if", "then", "else",
-                "in", "this", "parent", "ref", "enum", "min", "max", "sum", "product", "assert"}
-    return st.one_of(ident_names(6), ident_names(6), st.sampled_from(pool), free).map(
+    reserved = CLAFER_RESERVED
+    return st.one_of(ident_names(6), ident_names(6), st.sampled_from(pool), free, unicode_identifier_like()).map(
         lambda s: s + "_" if s in reserved else s)
 
 
@@ -500,4 +597,33 @@ def _clafer_attrs(draw, fname):
 
 
 CLAFER = Profile(clafer_names(), single=("mandatory", "optional"), group=("alternative", "or", "mutex", "card"),
-                 layout="one_group", abstract=False, attrs=_clafer_attrs, ctc_max=4, ctc_depth=3)
+                 layout="one_group", abstract=False, attrs=_clafer_attrs, ctc_max=4, ctc_depth=3, variants=VARIANTS_TEXT,
+                 sanitize=clafer_sanitize)
+
+
+
+# ------------------------------------------------------------------ equal-but-different twins
+def eq_twin(draw, model):
+    """A model that compares == to `model` under the library's FeatureModel.__eq__ (same names, relations and
+    constraints) but differs in what that equality ignores: abstract flags, attribute values, child/relation/
+    constraint order.  Used in histories to expose caches keyed on model equality."""
+    import copy
+    m = copy.deepcopy(model)
+
+    def rec(f):
+        if draw(st.booleans()):
+            f["abstract"] = not f["abstract"]
+        for a in f["attrs"]:
+            if "value" in a and draw(st.booleans()):
+                a["value"] = draw(st.sampled_from([None, 0, 7, True, "changed"]))
+        for r in f["rels"]:
+            if len(r["children"]) > 1 and draw(st.booleans()):
+                r["children"] = list(reversed(r["children"]))
+            for c in r["children"]:
+                rec(c)
+        if len(f["rels"]) > 1 and draw(st.booleans()):
+            f["rels"] = list(reversed(f["rels"]))
+    rec(m["root"])
+    if len(m["ctcs"]) > 1 and draw(st.booleans()):
+        m["ctcs"] = list(reversed(m["ctcs"]))
+    return m
